@@ -363,8 +363,12 @@ func (r *Run) Hook(site string) {
 		r.mu.Unlock()
 		switch {
 		case d >= time.Microsecond:
-			// a hold: the goroutine stays here for a span the harness can act in (Close, deliveries); it counts as at rest
-			time.Sleep(d)
+			// a hold: the goroutine stays here for a span the harness can act in (Close, deliveries); it counts as at rest.
+			// Holds stop after the first 30 s of simulated time (a site passed once per sample would otherwise slow
+			// the client down for the whole run).
+			if time.Since(r.start) < 30*time.Second {
+				time.Sleep(d)
+			}
 		case d > 0:
 			r.sleepers.Add(1)
 			time.Sleep(d)
